@@ -4,6 +4,7 @@ import math
 import warnings
 import numpy as np
 import common
+from props import mmulti
 from common import xr, xvec, from_xr, from_xvec, num_close
 
 ID = "C05"
@@ -541,3 +542,8 @@ def judge(op, impl_out, spec_out):
 
 def nontrivial(op, out):
     return out not in ("nan", "ERR", "inf", "-inf") and not out.startswith("E")
+
+
+# stream family metric.multi (props/mmulti.py): the deterministic scores through the real compute / compute_single on
+# datasets with several inputs, for every input index, axis and slice index; ops with the prefix `mm ` are delegated
+mmulti.install(globals(), "det")
